@@ -1,4 +1,6 @@
-"""Minimal witness programs for the compile-time evaluator's defects (C03/C06), keyed as in known_findings.d/C03.json.
+"""Minimal witness programs for the compile-time evaluator's defects (C03/C06), keyed as in known_findings.d/C03.json
+(open: dynamic scoping, string escapes, void-call value; fixed by 9481a65 and kept as regression inputs: block-exit,
+block-exit-hang, shadow-locals-persist, for-body-let).
 Each is (program AST, shadow statement lists); names: variable n -> v<n>, function n -> f<n> (0 = main)."""
 from lang_findings import fn, seq, prog, N, V, P
 
